@@ -72,6 +72,11 @@ class C01(Prop):
             # small single-accelerator programs over three configurations (alternating / restoring inside a loop)
             yield {"kind": "dedup", "src": ac.redundancy_program(random.Random(rng.getrandbits(48))), "xseed": rng.getrandbits(32)}
 
+        import accfg_links as al
+        for i in range(20 if tier == "quick" else 300):
+            # loops that already carry a state they only pass through (see C07)
+            yield {"kind": "dedup", "src": al.passthrough_program(random.Random(rng.getrandbits(48))), "xseed": rng.getrandbits(32)}
+
     def extra_search_cases(self, rng, tier):
         while True:
             yield {"kind": "dedup", "src": ac.redundancy_program(random.Random(rng.getrandbits(48))), "xseed": rng.getrandbits(32)}
